@@ -14,15 +14,16 @@ NONE = 'none'
 _chem_cache = {}
 
 
-def chem(ID):
-    if ID not in _chem_cache:
-        _chem_cache[ID] = tmo.Chemical(ID)
-    return _chem_cache[ID]
+def chem(ID, pool=''):
+    """Chemical objects, one pool per package family (set_alias writes the alias onto the Chemical object)."""
+    if (pool, ID) not in _chem_cache:
+        _chem_cache[pool, ID] = tmo.Chemical(ID)
+    return _chem_cache[pool, ID]
 
 
 UNIVERSES = {
     'mc': dict(chems=['Water', 'Ethanol', 'Methanol'], aliases={'Aqua': 'Water'},
-               groups={'Alc': (['Ethanol', 'Methanol'], [[1, 2], [1, 2]])}, phases=['g', 'l'], multi=True),
+               groups={'Alc': (['Methanol', 'Ethanol'], [[1, 4], [3, 4]])}, phases=['g', 'l'], multi=True),
     'mcq': dict(chems=['Water', 'Ethanol', 'Methanol'], aliases={'Aqua': 'Water'},
                 groups={'Alc': (['Ethanol', 'Methanol'], [[1, 2], [1, 2]])}, phases=['l'], multi=True),
     'mc1': dict(chems=['Water', 'Ethanol', 'Methanol'], aliases={'Aqua': 'Water'},
@@ -30,12 +31,12 @@ UNIVERSES = {
     'big': dict(chems=['Water', 'Ethanol', 'Methanol', 'Glycerol', 'Propanol', 'Octane', 'Hexane', 'Butanol'],
                 aliases={'Aqua': 'Water', 'EtOH': 'Ethanol', 'C8': 'Octane'},
                 groups={'Alc': (['Ethanol', 'Methanol', 'Propanol', 'Butanol'], [[1, 4], [1, 4], [1, 4], [1, 4]]),
-                        'HC': (['Octane', 'Hexane'], [[1, 4], [3, 4]])},
+                        'HC': (['Hexane', 'Octane'], [[1, 4], [3, 4]]), 'Mix': (['Butanol', 'Water', 'Glycerol'], [[1, 2], [1, 4], [1, 4]])},
                 phases=['g', 'l', 's'], multi=True),
     'big1': dict(chems=['Water', 'Ethanol', 'Methanol', 'Glycerol', 'Propanol', 'Octane', 'Hexane', 'Butanol'],
                  aliases={'Aqua': 'Water', 'EtOH': 'Ethanol', 'C8': 'Octane'},
                  groups={'Alc': (['Ethanol', 'Methanol', 'Propanol', 'Butanol'], [[1, 4], [1, 4], [1, 4], [1, 4]]),
-                         'HC': (['Octane', 'Hexane'], [[1, 4], [3, 4]])},
+                         'HC': (['Hexane', 'Octane'], [[1, 4], [3, 4]]), 'Mix': (['Butanol', 'Water', 'Glycerol'], [[1, 2], [1, 4], [1, 4]])},
                  phases=['x'], multi=False),
 }
 
@@ -153,6 +154,20 @@ class World:
         else:
             self.ind = ix.ChemicalMolarFlowIndexer.blank('l', chems)
         self.names = names_of(universe)
+        # a twin package: same chemical IDs, but every alias and group means something else
+        twin = tmo.Chemicals([chem(i, 'twin') for i in universe['chems']])
+        twin.compile(skip_checks=True)
+        ids = universe['chems']
+        for alias, ID in universe['aliases'].items():
+            twin.set_alias(ids[(ids.index(ID) + 1) % len(ids)], alias)
+        for g, (IDs, comp) in universe['groups'].items():
+            members = [ids[(ids.index(i) + 1) % len(ids)] for i in IDs]
+            twin.define_group(g, members, composition=[q[0] / q[1] for q in reversed(comp)])
+        self.twin_chemicals = twin
+        if universe['multi']:
+            self.twin = ix.MolarFlowIndexer.blank(tuple(universe['phases']), twin)
+        else:
+            self.twin = ix.ChemicalMolarFlowIndexer.blank('l', twin)
 
     def project(self):
         if self.universe['multi']:
@@ -201,6 +216,13 @@ class World:
                     if a.get('as_array') and v['nd'] == 1:
                         value = np.array(value)
                     self.ind[self.pykey(a['key'], a.get('as_list', False))] = value
+                elif op == 'twin_get':
+                    # the same key looked up on an indexer of the twin package (not judged: it only exercises
+                    # whatever lookup state the two packages might share)
+                    try:
+                        self.twin[self.pykey(a['key'], a.get('as_list', False))]
+                    except Exception:
+                        pass
                 elif op == 'overlap':
                     scratch = ix.ChemicalMolarFlowIndexer.blank('l', self.chemicals)
                     other = ix.ChemicalMolarFlowIndexer.blank('l', self.other_chemicals)
@@ -257,8 +279,27 @@ def resolve_len(universe, ck):
     return len(universe['chems'])
 
 
+_last_overlap = []
+
+
 def random_op(universe, rng, max_len=4):
     r = rng.random()
+    if _last_overlap and r < 0.12:
+        names = list(_last_overlap[-1])
+        how = rng.choice(['sorted', 'reversed', 'same', 'shuffled'])
+        if how == 'sorted':
+            names.sort()
+        elif how == 'reversed':
+            names.sort(reverse=True)
+        elif how == 'shuffled':
+            rng.shuffle(names)
+        ck = dict(k='tuple', ns=names)
+        key = dict(p='nophase', c=ck) if not universe['multi'] else dict(p=rng.choice(['sum'] + universe['phases']), c=ck)
+        if rng.random() < 0.5:
+            return 'get', dict(key=key, as_list=rng.random() < 0.3)
+        return 'set', dict(key=key, v=dict(nd=1, e=[4 * rng.randint(0, 5) for _ in names]), as_list=False, as_array=rng.random() < 0.5)
+    if r < 0.2:
+        return 'twin_get', dict(key=random_key(universe, rng, max_len), as_list=rng.random() < 0.3)
     if r < 0.55:
         return 'get', dict(key=random_key(universe, rng, max_len), as_list=rng.random() < 0.3)
     if r < 0.93:
@@ -269,4 +310,7 @@ def random_op(universe, rng, max_len=4):
             v = dict(nd=1, e=[4 * rng.randint(0, 5) for _ in range(resolve_len(universe, key['c']))])
         return 'set', dict(key=key, v=v, as_list=rng.random() < 0.3, as_array=rng.random() < 0.5)
     ids = rng.sample(universe['chems'], rng.randint(1, min(3, len(universe['chems']))))
-    return 'overlap', dict(names=[cas_of(universe, i) for i in ids])
+    names = [cas_of(universe, i) for i in ids]
+    _last_overlap.append(names)
+    del _last_overlap[:-3]
+    return 'overlap', dict(names=names)
